@@ -343,6 +343,7 @@ structure St where
   skipped : List Text := []           -- skippedTests.values
   cleanups : List (Nat × Cleanup) := []
   tev : List TEvent := []             -- what the calls reported to their testing.T, oldest first
+  stdout : Text := []                 -- what was printed with fmt.Println
 
 /-- `t.Log(x)` -/
 def St.tLog (st : St) (_t : T) (x : Text) : St := { st with tev := st.tev ++ [.log x] }
